@@ -137,9 +137,12 @@ def run_impl(mode, histories, prof):
     return [parse_obs_line(l) for l in out]
 
 def run_model(mode, histories, prof, numbering):
-    """numbering: entry name -> catalogue number; the model takes `NUM CHK`"""
+    """numbering: entry name -> catalogue number; the model takes `NUM CHK` (None: the name itself)"""
     chk = '1' if prof == 'checked' else '0'
-    lines = [';'.join([f'{numbering[name]:x} {chk}'] + ops) for name, ops in histories]
+    if numbering is None:
+        lines = [';'.join([name] + ops) for name, ops in histories]
+    else:
+        lines = [';'.join([f'{numbering[name]:x} {chk}'] + ops) for name, ops in histories]
     out = _run_sharded(lambda fi, fo: [DRIVER, mode, fi, fo], lines, f'model-{mode}-{prof}')
     return [parse_obs_line(l) for l in out]
 
